@@ -274,6 +274,8 @@ pub struct WorkerArgs {
     pub n_runs: u64,
     pub known: KnownFindings,
     pub deadline_s: f64,
+    /// heartbeat file: the index of the run being executed (lets the parent name the run of a hang)
+    pub heartbeat: Option<PathBuf>,
 }
 
 pub fn worker_main(engine: &dyn Engine, a: WorkerArgs) {
@@ -292,6 +294,9 @@ pub fn worker_main(engine: &dyn Engine, a: WorkerArgs) {
     for run in a.first_run..a.first_run + a.n_runs {
         if t0.elapsed().as_secs_f64() > a.deadline_s {
             break;
+        }
+        if let Some(hb) = &a.heartbeat {
+            let _ = std::fs::write(hb, run.to_string());
         }
         let plan = engine.gen_plan(a.seed, run, &a.focus, a.tier);
         let rep = run_caught(engine, &plan, &a.focus);
@@ -399,7 +404,13 @@ pub fn check_main(engine: &dyn Engine, a: CheckArgs) -> i32 {
         chunk: u64,
         proc: std::process::Child,
         reader: std::thread::JoinHandle<Vec<String>>,
+        hb: PathBuf,
+        hb_last: String,
+        hb_changed: Instant,
+        env: Vec<(String, String)>,
     }
+    let hang_s: f64 = std::env::var("XSIM_HANG_S").ok().and_then(|s| s.parse().ok()).unwrap_or(150.0);
+    let mut last_hb_poll = Instant::now();
     let mut next_chunk = 0u64;
     let mut live: Vec<Child> = Vec::new();
     let mut summaries: Vec<ChunkSummary> = Vec::new();
@@ -432,7 +443,10 @@ pub fn check_main(engine: &dyn Engine, a: CheckArgs) -> i32 {
                 .arg("--deadline")
                 .arg(format!("{}", (budget.max_wall_s as f64 - elapsed).max(5.0)))
                 .arg("--known")
-                .arg(&known_path)
+                .arg(&known_path);
+            let hb = PathBuf::from(format!("/dev/shm/xsim-hb-{}-{}", std::process::id(), next_chunk));
+            cmd.arg("--hb")
+                .arg(&hb)
                 .stdout(Stdio::piped())
                 .stderr(Stdio::inherit());
             // scrub inherited HF_XET_ configuration, then apply the chunk's
@@ -441,7 +455,8 @@ pub fn check_main(engine: &dyn Engine, a: CheckArgs) -> i32 {
                     cmd.env_remove(k);
                 }
             }
-            for (k, v) in engine.chunk_env(a.seed, next_chunk, &a.focus, a.tier) {
+            let cenv = engine.chunk_env(a.seed, next_chunk, &a.focus, a.tier);
+            for (k, v) in &cenv {
                 cmd.env(k, v);
             }
             let mut proc = cmd.spawn().expect("spawn worker");
@@ -457,11 +472,52 @@ pub fn check_main(engine: &dyn Engine, a: CheckArgs) -> i32 {
                 chunk: next_chunk,
                 proc,
                 reader,
+                hb,
+                hb_last: String::new(),
+                hb_changed: Instant::now(),
+                env: cenv,
             });
             next_chunk += 1;
         }
         if live.is_empty() {
             break;
+        }
+        // hang detection: a run that does not finish within hang_s is killed and reported with its plan
+        if last_hb_poll.elapsed().as_secs_f64() > 1.0 {
+            last_hb_poll = Instant::now();
+            for c in live.iter_mut() {
+                let cur = std::fs::read_to_string(&c.hb).unwrap_or_default();
+                if cur != c.hb_last {
+                    c.hb_last = cur;
+                    c.hb_changed = Instant::now();
+                } else if c.hb_changed.elapsed().as_secs_f64() > hang_s && !c.hb_last.is_empty() {
+                    let _ = c.proc.kill();
+                    let run: u64 = c.hb_last.trim().parse().unwrap_or(0);
+                    // obtain the plan of that run from a fresh process with the chunk's configuration
+                    let mut pc = Command::new(&exe);
+                    pc.arg("plan").arg(&a.focus).arg("--seed").arg(a.seed.to_string()).arg("--run").arg(run.to_string()).arg("--tier").arg(a.tier.name());
+                    for (k, v) in &c.env {
+                        pc.env(k, v);
+                    }
+                    let plan: Value = pc.output().ok().and_then(|o| serde_json::from_slice(&o.stdout).ok()).unwrap_or(Value::Null);
+                    found.push(FoundViolation {
+                        violation: Violation {
+                            property: a.focus.clone(),
+                            clause: format!("{}.hang", a.focus),
+                            site: "run-never-finished".into(),
+                            detail: format!("run {run} did not finish within {hang_s} s of wall time (simulated time cannot explain this: the code under test loops or blocks)"),
+                        },
+                        run,
+                        chunk: c.chunk,
+                        plan,
+                        minimised_plan: None,
+                        minimise_steps: 0,
+                        env: c.env.iter().cloned().collect(),
+                    });
+                    stop_launching = true;
+                    c.hb_last.clear();
+                }
+            }
         }
         // wait for any child
         let mut i = 0;
@@ -470,6 +526,8 @@ pub fn check_main(engine: &dyn Engine, a: CheckArgs) -> i32 {
             match live[i].proc.try_wait() {
                 Ok(Some(status)) => {
                     let c = live.swap_remove(i);
+                    let _ = std::fs::remove_file(&c.hb);
+                    let killed_for_hang = found.iter().any(|f| f.chunk == c.chunk && f.violation.site == "run-never-finished");
                     let lines = c.reader.join().unwrap_or_default();
                     let mut got_summary = false;
                     for l in lines {
@@ -493,7 +551,7 @@ pub fn check_main(engine: &dyn Engine, a: CheckArgs) -> i32 {
                             }
                         }
                     }
-                    if !status.success() || !got_summary {
+                    if (!status.success() || !got_summary) && !killed_for_hang {
                         harness_errors.push(format!(
                             "worker for chunk {} ended abnormally ({status}); runs {}..{}",
                             c.chunk,
@@ -679,6 +737,18 @@ pub fn replay_main(engine: &dyn Engine, file: &Value, path: &Path) -> i32 {
     let focus = file["focus"].as_str().unwrap_or("").to_string();
     let plan = &file["plan"];
     let expected: Option<Violation> = serde_json::from_value(file["expected"].clone()).ok();
+    {
+        // a run that never finishes is itself the reproduction of a `.hang` violation
+        let expect_hang = expected.as_ref().map(|e| e.clause.ends_with(".hang")).unwrap_or(false);
+        let (f, p) = (focus.clone(), path.to_path_buf());
+        let limit: u64 = std::env::var("XSIM_HANG_S").ok().and_then(|s| s.parse().ok()).unwrap_or(if expect_hang { 60 } else { 600 });
+        std::thread::spawn(move || {
+            std::thread::sleep(std::time::Duration::from_secs(limit));
+            println!("replay: the run did not finish within {limit} s");
+            println!("VIOLATION property={} replay={} ({})", f, p.display(), if expect_hang { "hang reproduced" } else { "hang" });
+            std::process::exit(1);
+        });
+    }
     let rep = run_caught(engine, plan, &focus);
     for v in &rep.violations {
         println!("replay: violation clause={} site={} detail={}", v.clause, v.site, v.detail);
